@@ -49,10 +49,12 @@ async fn main() {
         let opts = SpawnOptions { grouped: r.below(2) == 0, session: r.below(3) == 0, reset_sigmask: r.below(2) == 0, ..Default::default() };
         let of = format!("{}{}{}", opts.grouped as u8, opts.session as u8, opts.reset_sigmask as u8);
         let (program, line) = if r.below(2) == 0 {
-            let prog = if real { me.to_string_lossy().to_string() } else { let mut p = s(&mut r); if p.is_empty() { p = "p".into() }; p };
+            // a program PATH need not be UTF-8 on unix (a Latin-1 file name): a fifth of the inspected commands carry raw bytes 0xE9 / 0xFF
+            let prog: Vec<u8> = if real { std::os::unix::ffi::OsStrExt::as_bytes(me.as_os_str()).to_vec() } else { let mut p = s(&mut r); if p.is_empty() { p = "p".into() };
+                let mut b = p.into_bytes(); if r.below(5) == 0 { b.push(0xE9); if r.below(2) == 0 { b.insert(0, 0xFF); } } b };
             let args = sl(&mut r, 5);
-            let l = format!("LIB\tE\t{}\t{}\t{}", hx(prog.as_bytes()), hxl(&args), of);
-            (Program::Exec { prog: PathBuf::from(prog), args }, l)
+            let l = format!("LIB\tE\t{}\t{}\t{}", hx(&prog), hxl(&args), of);
+            (Program::Exec { prog: PathBuf::from(<std::ffi::OsString as std::os::unix::ffi::OsStringExt>::from_vec(prog)), args }, l)
         } else {
             let (shprog, options, po, command) = if real {
                 ("sh".to_string(), vec![], Some("-c".to_string()), "\"$WX_HELPER\" \"$0\" \"$@\"".to_string())
